@@ -414,6 +414,73 @@ func runC03(seed int64, tier string, sc *Script) map[string]any {
 		evals++
 		reg.Close()
 	}
+	// an OCI layout written by a concurrent ExtendedCopyGraph (a subject with twelve referrers),
+	// opened afresh and used as the source of another ExtendedCopyGraph: every referrer the
+	// first copy reported as copied is found and copied again
+	{
+		sc.Case("extcopy-from-freshly-written-layout")
+		sc.NonTrivial()
+		reps := 120
+		if tier == "thorough" {
+			reps = 1500
+		}
+		verdict := "complete"
+		for ri := 0; ri < reps && verdict == "complete"; ri++ {
+			src := memory.New()
+			push := func(mt string, b []byte) ocispec.Descriptor {
+				d := ocispec.Descriptor{MediaType: mt, Digest: digest.FromBytes(b), Size: int64(len(b))}
+				if err := src.Push(ctx, d, bytes.NewReader(b)); err != nil {
+					panic(err)
+				}
+				return d
+			}
+			cfgD := push(ocispec.MediaTypeEmptyJSON, []byte("{}"))
+			mk := func(subject *ocispec.Descriptor, id string) ocispec.Descriptor {
+				m := ocispec.Manifest{MediaType: ocispec.MediaTypeImageManifest, ArtifactType: "application/vnd.verif.fresh", Config: cfgD, Layers: []ocispec.Descriptor{}, Subject: subject,
+					Annotations: map[string]string{"id": id, "rep": fmt.Sprint(ri)}}
+				m.SchemaVersion = 2
+				b, _ := json.Marshal(m)
+				return push(ocispec.MediaTypeImageManifest, b)
+			}
+			subj := mk(nil, "subject")
+			var refs []ocispec.Descriptor
+			for k := 0; k < 12; k++ {
+				refs = append(refs, mk(&subj, fmt.Sprint(k)))
+			}
+			dir := filepath.Join(tmp, fmt.Sprintf("fresh%d", ri))
+			lay, err := oci.New(dir)
+			if err != nil {
+				panic(err)
+			}
+			o := oras.DefaultExtendedCopyGraphOptions
+			o.Concurrency = 12
+			if err := oras.ExtendedCopyGraph(ctx, src, lay, subj, o); err != nil {
+				panic(err)
+			}
+			re, err := oci.New(dir)
+			if err != nil {
+				verdict = fmt.Sprintf("rep-%d:reopen-failed", ri)
+				break
+			}
+			dst := memory.New()
+			if err := oras.ExtendedCopyGraph(ctx, re, dst, subj, oras.DefaultExtendedCopyGraphOptions); err != nil {
+				verdict = fmt.Sprintf("rep-%d:second-copy-failed", ri)
+				break
+			}
+			missing := 0
+			for _, r := range refs {
+				if ok, _ := dst.Exists(ctx, r); !ok {
+					missing++
+				}
+			}
+			if missing > 0 {
+				verdict = fmt.Sprintf("rep-%d:%d-of-12-referrers-not-copied-from-the-reopened-layout", ri, missing)
+			}
+			os.RemoveAll(dir)
+		}
+		sc.Op(verdict, "fr freshlayout reps=%d", reps)
+		evals++
+	}
 	sc.Extra["evaluations"] = evals
 	return nil
 }
